@@ -131,13 +131,15 @@ def readout_record(ro) -> dict:
             "stable": True, "acc": acc}
 
 
-def record_run(chunks: list[bytes], reader=None) -> dict:
+def record_run(chunks: list[bytes], reader=None, reuse=False) -> dict | None:
+    """reuse: see drv_hdlc.record_run (one refilled bytearray / a memoryview of it as chunk; dropped on TypeError)."""
     from han.dlde import ModeDReader
     r = reader or ModeDReader()
     by = ModeDReader()       # a second reader used between the calls: readers are independent objects
     calls = []
     kept = []
     lists = []
+    rbuf, rbuf2 = bytearray(max([len(c) for c in chunks] + [1])), bytearray()
     for n, ch in enumerate(chunks):
         raised, outs = "", []
         try:
@@ -145,10 +147,20 @@ def record_run(chunks: list[bytes], reader=None) -> dict:
         except Exception:  # noqa: BLE001
             pass
         try:
-            res = r.read(ch)
+            if reuse and n % 2:
+                rbuf[:len(ch)] = ch
+                res = r.read(memoryview(rbuf)[:len(ch)])        # a view of the caller's receive buffer, overwritten by the next odd call
+            elif reuse:
+                res = r.read(_refill(rbuf2, ch))                # one bytearray object, refilled for every even call
+            else:
+                res = r.read(ch)
             outs = [readout_record(x) for x in res]
             kept += list(zip(res, outs))
             lists.append((res, outs))
+        except TypeError as ex:
+            if reuse:
+                return None
+            raised = type(ex).__name__
         except Exception as ex:  # noqa: BLE001
             raised = type(ex).__name__
         try:
@@ -161,8 +173,17 @@ def record_run(chunks: list[bytes], reader=None) -> dict:
     return {"calls": calls}
 
 
+def _refill(buf: bytearray, ch: bytes) -> bytearray:
+    buf[:] = ch
+    return buf
+
+
 def make_trace(data: bytes, cutsets, *, mode="free", plan=None, origin="", nodrift=False) -> dict:
     runs = [record_run(split(data, cuts)) for cuts in cutsets]
+    if len(cutsets) > 1 and len(data) < 20000:      # one more run: the last chunking again through a caller-owned, refilled receive buffer
+        run = record_run(split(data, cutsets[-1]), reuse=True)
+        if run is not None:
+            runs.append(run)
     return {"id": stable_id("p1", data.hex(), cutsets, mode), "canary": "", "origin": origin, "mode": mode,
             "plan": plan or [], "runs": runs, "nodrift": nodrift}
 
